@@ -153,6 +153,56 @@ namespace
         o.len = k;
     }
 
+    // ids of the members of an arch_list, in order
+    template <class L>
+    struct list_ids;
+    template <class... As>
+    struct list_ids<xsimd::arch_list<As...>>
+    {
+        static int put(uint8_t* o)
+        {
+            const int ids[] = { arch_id<As>::value..., 0 };
+            int n = (int)sizeof...(As);
+            for (int i = 0; i < n; ++i)
+                o[i] = (uint8_t)ids[i];
+            return n;
+        }
+    };
+    // dispatch(f) with the DEFAULT list (supported_architectures); the list itself is appended to the observation:
+    // [.. as run_dispatch (40 bytes) .., n, ids..., id of best_arch, id of default_arch]
+    void run_dispatch_default(const vd::Args& a, vd::Out& o)
+    {
+        set_cfg(a.in[0]);
+        g_src.bypass_cache = true;
+        xsimd::detail::verif_cpu_source_slot() = &g_src;
+        g_ncalls = 0;
+        for (int i = 0; i < 8; ++i)
+            g_calls[i] = 0;
+        long x = a.in[1][0] | (a.in[1][1] << 8), y = a.in[1][2] | (a.in[1][3] << 8);
+        auto d = xsimd::dispatch(probe {});
+        long ret = d(x, y);
+        xsimd::detail::supported_arch fl = xsimd::available_architectures();
+        xsimd::detail::verif_cpu_source_slot() = nullptr;
+        int k = 0;
+        o.bytes[k++] = (uint8_t)g_ncalls;
+        for (int i = 0; i < 8; ++i)
+            o.bytes[k++] = (uint8_t)g_calls[i];
+        vd::st<uint32_t>(o.bytes + k, (uint32_t)ret);
+        k += 4;
+        vd::st<uint16_t>(o.bytes + k, (uint16_t)g_seen_a);
+        k += 2;
+        vd::st<uint16_t>(o.bytes + k, (uint16_t)g_seen_b);
+        k += 2;
+        put_flags(fl, o.bytes + k);
+        k += 23;
+        int n = list_ids<xsimd::supported_architectures>::put(o.bytes + k + 1);
+        o.bytes[k] = (uint8_t)n;
+        k += 1 + n;
+        o.bytes[k++] = (uint8_t)arch_id<xsimd::best_arch>::value;
+        o.bytes[k++] = (uint8_t)arch_id<xsimd::default_arch>::value;
+        o.len = k;
+    }
+
     struct Registrar
     {
         Registrar()
@@ -185,6 +235,7 @@ namespace
                                         put_flags(s1, o.bytes);
                                         o.len = 23;
                                     } });
+            tab.entries.push_back({ "disp", "Ldef", "-", run_dispatch_default });
 #include "gen_dispatch.inc"
             vd::registry().push_back(std::move(tab));
         }
